@@ -130,16 +130,21 @@ style / colour parsing function with the expression it passes as `true_color`. -
 option site passes `opt.computed.true_color` (directly or through a local `let`), the only
 exceptions being git's own `color.diff.old/new` (`StyleSites.depthExceptions`, never painted);
 every `--…-style` option of cli.rs has such a site; wrappers forward their parameter and the only
-literal depths in helpers are the four listed in `StyleSites.allowedLiteralHelpers`. -/
+literal depths in helpers are the three listed in `StyleSites.allowedLiteralHelpers` (git's own colour
+strings, the *key* of a `--map-styles` entry, and — a known finding — a style referred to through a custom
+git-config key); the `--map-styles` replacement and `--blame-palette` follow the configured depth. -/
 theorem style_options_use_configured_depth :
     (∀ s ∈ Generated.StyleSites.styleCallSites, s.kind = "option" → s.name ∉ StyleSites.depthExceptions →
       s.trueColorArg = "opt.computed.true_color") ∧
     (∀ o ∈ Generated.StyleSites.cliStyleOptions, ∃ s ∈ Generated.StyleSites.styleCallSites,
       s.kind = "option" ∧ o ∈ s.uses ∧ s.trueColorArg = "opt.computed.true_color") ∧
     (∀ s ∈ Generated.StyleSites.styleCallSites, StyleSites.literalHelper s = true →
-      (s.inFn, s.callee, s.styleArg) ∈ StyleSites.allowedLiteralHelpers) :=
+      (s.inFn, s.callee, s.styleArg) ∈ StyleSites.allowedLiteralHelpers) ∧
+    (∀ s ∈ Generated.StyleSites.styleCallSites,
+      (s.inFn = "parse_styles_map" ∧ s.styleArg = "to_str") ∨ s.inFn = "blame_metadata_style" →
+      ∀ configured, StyleSites.evalDepth s.trueColorArg configured = some configured) :=
   ⟨StyleSites.option_sites_pass_configured_depth, StyleSites.every_cli_style_option_has_a_site,
-   StyleSites.helpers_forward_depth⟩
+   StyleSites.helpers_forward_depth, StyleSites.map_styles_and_blame_palette_depth.2.2⟩
 
 /-- **A style string means the same thing in every style option**: at any option site of the
 inventory (other than git's own colours), with the configured depth `configured`, the parser is run
